@@ -758,6 +758,9 @@ func parsedExperiments(rep *mbt.Report, ck *checker, m *ir.Module, src string, s
 		}
 		ck.checkParsedOperands(users, src)
 		ck.checkFrame(f, users, src)
+		if strings.HasPrefix(src, "cover2:") {
+			continue // the doubled programs serve the frame condition; replace-all-uses is judged on the single ones
+		}
 		for _, g := range m.Globals {
 			olds = append(olds, g)
 		}
